@@ -258,7 +258,24 @@ def run(ctx):
         ctx.ob('g2 gate-closes', 'K1-must-pass', cr.path, 'with a background error recorded no effect site of commit_raw is reachable', bool(some) and w is None,
                'no branch on bg_err' if not some else ('' if w is None else 'path: ' + lib.short_path(cr, w)))
     mk = sorted(b.path for b in F.bodies.values() if any(s['k'] == 'assign' and s['r']['k'] == 'agg' and s['r']['ak'] == 'Adt:db::Commit' for blk in b.blocks for s in blk['s']))
-    ctx.ob('g3 Commit-constructed-only-when-queued', 'K4-confinement', ','.join(mk), 'Commit values are built only by commit_raw and defer_commit (both push them on the queue)',
-           set(mk) <= {'db::DbInner::commit_raw', 'db::DbInner::defer_commit', '<db::Commit as std::default::Default>::default'} and 'db::DbInner::commit_raw' in mk, str(mk))
+    # the log worker may put back (part of) a commit it has just taken off the queue - an accepted commit whose tree removals have to
+    # wait; what it pushes must derive from the popped commit (never before it has taken one off)
+    requeuers = set()
+    for b in F.bodies.values():
+        if lib.strip_closures(b.path) != 'db::DbInner::process_commits':
+            continue
+        pops = [bi for bi, t in b.calls() if call_matches(t, ['re:VecDeque.*::pop_front$']) and t['a'] and '.CommitQueue.commits' in lib.receiver_fields(b, t, 0)]
+        ok_all = True
+        for b2, bi in lib.calls_on_field(F, ['std::collections::VecDeque::<T, A>::push_back'], '.CommitQueue.commits', bodies=[b]):
+            # (the parts are moved into the re-queued change set through references, so its data slice does not show them: the
+            # structural condition is that nothing is pushed before a commit was popped)
+            if not pops or b.find_path([0], {bi}, removed=set(pops)) is not None:
+                ok_all = False
+        if pops and ok_all:
+            requeuers.add(b.path)
+    base = {'db::DbInner::commit_raw', 'db::DbInner::defer_commit'}
+    ctx.ob('g3 Commit-constructed-only-when-queued', 'K4-confinement', ','.join(mk), 'Commit values are built only by commit_raw and defer_commit (both push them on the queue), or by the log worker re-queueing part of a commit it popped',
+           set(mk) <= base | requeuers | {'<db::Commit as std::default::Default>::default'} and 'db::DbInner::commit_raw' in mk, str(mk))
     pushers = sorted(set(b.path for b, _ in lib.calls_on_field(F, ['std::collections::VecDeque::<T, A>::push_back', 're:VecDeque.*::(push_front|insert|extend)$'], '.CommitQueue.commits')))
-    ctx.ob('g4 queue-producers', 'K4-confinement', ','.join(pushers), 'only commit_raw and defer_commit put commits on the queue', pushers == ['db::DbInner::commit_raw', 'db::DbInner::defer_commit'], str(pushers))
+    ctx.ob('g4 queue-producers', 'K4-confinement', ','.join(pushers), 'only commit_raw and defer_commit put commits on the queue (and the log worker, re-queueing part of a commit it popped)',
+           base <= set(pushers) and set(pushers) <= base | requeuers, str(pushers))
